@@ -8,6 +8,10 @@ Model of `pybtex/auxfile.py` (reading a LaTeX `.aux` file), function by function
                      first newline; nothing is required after that brace.
 * `handleCitation` = `handle_citation` (`keys.split(',')`; `_canonical_keys` maps the lower-cased
                      key to the spelling seen LAST; a different spelling is reported, and replaces it).
+                     `key.lower()` is `lowerPy` (`Model/UniCase.lean`): `str.lower()` of the running
+                     interpreter on whole strings, from the regenerated tables (per-character map,
+                     multi-character forms such as U+0130, the final-sigma rule) — `É`/`é`, `Д`/`д`,
+                     `K` (Kelvin sign)/`k` are the same key, `ß`/`SS` are not.
 * `handleBibstyle`, `handleBibdata`, `handleInput`, `handleCommand`, `parseLine`, `parseFile`.
 * the file system is a parameter `FS = Path → Option (List Str)` (`none` = the file cannot be
   opened: `open_unicode` raises `PybtexError('unable to open …')`); a file is the list of its lines.
@@ -26,6 +30,7 @@ Model of `pybtex/auxfile.py` (reading a LaTeX `.aux` file), function by function
   (theorem `C20_no_internal_error`).
 -/
 import PybtexModel.Model.PyDict
+import PybtexModel.Model.UniCase
 
 namespace Pybtex.Aux
 
@@ -162,7 +167,7 @@ The handlers read `self.context`; it is the object `parse_line` has just updated
 
 /-- body of the loop of `handle_citation` -/
 def citeKey (ctx : Ctx) (st : St) (key : Str) : St :=
-  let keyLower := lower key
+  let keyLower := lowerPy key
   let st :=
     match dget st.canonical keyLower with
     | some existing =>
@@ -321,5 +326,39 @@ def topoOk (seen : List Path) : List (Path × List Str) → Bool
   | [] => true
   | (p, lines) :: rest =>
     (inputsOf lines).all (fun v => !(p :: seen).contains v) && topoOk (p :: seen) rest
+
+
+/-! ### `Engine.make_bibliography` up to the call of `format_from_files` (pybtex/__init__.py:34-59)
+
+    aux_data = auxfile.parse_file(aux_filename, output_encoding)
+    if style is None:
+        style = aux_data.style
+    bib_filenames = [filename + bib_format.default_suffix for filename in aux_data.data]
+    return self.format_from_files(bib_filenames, style=style, citations=aux_data.citations, …)
+-/
+
+/-- what `make_bibliography` hands to `format_from_files` -/
+structure EngineArgs where
+  bibFilenames : List Str
+  /-- `none` = `None` (cannot happen: a top-level parse without `\bibstyle` raises) -/
+  style : Option Str
+  citations : List Str
+deriving Repr, DecidableEq
+
+/-- `styleOverride` = the `style` argument (`none` = `None`: use the style of the `.aux` file),
+`suffix` = `bib_format.default_suffix` (`.bib` for the default reader).  A parse that returns
+without data cannot happen at top level (`finish` raises); Python would raise `TypeError`
+(iterating `None`), which the model renders as `Fatal.attributeError` ("a non-pybtex exception");
+never produced (`C20_engine_consumes`). -/
+def makeBibliographyArgs (fs : FS) (fuel : Nat) (auxName : Path) (styleOverride : Option Str)
+    (suffix : Str) : Except Abort EngineArgs :=
+  match parse fs fuel auxName with
+  | .error a => .error a
+  | .ok st =>
+    match st.data with
+    | none => .error ⟨.attributeError, st.reports⟩
+    | some data =>
+      let style := match styleOverride with | some s => some s | none => st.style
+      .ok ⟨data.map (· ++ suffix), style, st.citations⟩
 
 end Pybtex.Aux
